@@ -240,10 +240,10 @@ class Machine:
                 if v == ("name",):
                     return ("name.is_empty",)
                 raise Unsupported("is_empty")
-            if m == "write_str":
+            if m in ("write_str", "pad", "write_char"):
                 t = self.target(recv, env)
                 a = self.ev(e["args"][0], env)
-                self.trace.append(("write", t, a))
+                self.trace.append(("write" if m == "write_str" else m, t, a))
                 return OK
             if m == "write_fmt":
                 t = self.target(recv, env)
@@ -275,6 +275,12 @@ class Machine:
             raise Unsupported(f"method `{rr}.{m}(..)`")
         if k == "Expr::Closure":
             return ("closure", e)
+        if k == "Expr::Struct":
+            out = {}
+            for fv in e["fields"]:
+                nm = fv["member"]["0"]["sym"] if A.kind(fv["member"]) == "Member::Named" else str(fv["member"]["0"]["index"])
+                out[nm] = self.ev(fv["expr"], env)
+            return ("struct", A.path_last(e["path"]), tuple(sorted((k_, str(v_)) for k_, v_ in out.items())))
         raise Unsupported(f"expression {k}")
 
 
@@ -323,3 +329,17 @@ def run_loop_body(fn, impl_fns, on_newline, piece_ends_nl):
     except _Return:
         pass
     return it, m.trace, m.self["on_newline"]
+
+
+def run_constructor(fn):
+    """trace and resulting struct of `debug_tuple(fmt, name)` / `debug_tuple_new(fmt, name)`"""
+    m = Machine({}, {}, {})
+    names = [A.pat_idents(p["0"]["pat"]) for p in fn.node["sig"]["inputs"] if A.kind(p) == "FnArg::Typed"]
+    if len(names) != 2 or any(len(x) != 1 for x in names):
+        raise Unsupported("constructor parameters")
+    env = {names[0][0]: ("sink", "fmt"), names[1][0]: ("name",)}
+    try:
+        v = m.block(fn.block, env)
+    except _Return as r:
+        v = r.v
+    return m.trace, v
